@@ -176,7 +176,85 @@ def _block_of(pm, st):
     return []
 
 
+SAMPLE_INDENTED = (
+    "    @decorated\n"
+    "    def method(self, x):\n"
+    "        text = \"\"\"first\n"
+    "        second, indented by eight in the source\n"
+    "at column zero\"\"\"\n"
+    "        # a comment\n"
+    "        return recurse(x)\n"
+)
+SAMPLE_PLAIN = "def function(x):\n    text = \"\"\"first\n  second\"\"\"\n    return recurse(x)\n"
+
+
+def parse_step(ctx):
+    """Interpret the part of the re-compiler that turns a method's source into a tree and computes the line shift, on
+    two sample sources (an indented method with a decorator and a multi-line string literal, a plain function):
+    -> list of problems for the laws 'verbatim' and 'line-numbers', or raises AnalysisError if not interpretable."""
+    from ..metainterp import HostFn, HostInterp, Raised, Record, _Shared
+    from .common import local_slice
+
+    rc = A.recompiler(ctx.repo)
+    rw = A.rewriter(ctx.repo)
+    srcp = rc.params[0]
+    # the tree handed to the rewriter and the shift handed to increment_lineno
+    visits = [c for c in ast.walk(rc.node) if isinstance(c, ast.Call) and isinstance(c.func, ast.Attribute) and c.func.attr == "visit" and c.args]
+    incs = [c for c in ast.walk(rc.node) if isinstance(c, ast.Call) and call_name(c) in ("ast.increment_lineno", "increment_lineno") and len(c.args) >= 2]
+    if len(visits) != 1 or not incs:
+        raise AnalysisError(f"{rc.key}: the rewriter's visit or the line shift was not found")
+    tree_expr, shift_expr = visits[0].args[0], incs[0].args[1]
+    problems = {"verbatim": [], "line-numbers": []}
+    funcs = {n: g.node for n, g in rc.module.funcs.items() if g.parent is None and g.cls is None and g is not rc}
+    for label, sample, first in (("an indented method", SAMPLE_INDENTED, 100), ("a plain function", SAMPLE_PLAIN, 7)):
+        genv = {"inspect": Record(getsource=HostFn(lambda fn, sample=sample: sample)), "OSError": Record(kind="OSError")}
+        hi = HostInterp({}, Record(), {}, globals_env=genv, classes={}, functions=funcs)
+        fn = Record(__code__=Record(co_firstlineno=first, co_filename="<file>", co_freevars=()), __closure__=None, __name__="method")
+        env = _Shared({srcp: fn})
+        stmts = []
+        for e in (tree_expr, shift_expr):
+            for st in local_slice(rc.node, e, bound=(srcp,)) or []:
+                if st not in stmts:
+                    stmts.append(st)
+        stmts.sort(key=lambda st: st.lineno)
+        try:
+            for st in stmts:
+                hi.stmt(st, env)
+            tree = hi.ev(tree_expr, env)
+            shift = hi.ev(shift_expr, env)
+        except Raised as r:
+            problems["verbatim"].append(f"for {label} the source cannot be parsed ({r.what}): a literal or comment line left of the definition breaks registration")
+            continue
+        if not isinstance(tree, ast.AST) or not isinstance(shift, int):
+            raise AnalysisError(f"{rc.key}: the parse step did not yield a tree and an integer shift")
+        want_tree = ast.parse("if True:\n" + sample).body[0] if sample[:1] == " " else ast.parse(sample)
+        consts = [n for n in ast.walk(tree) if isinstance(n, ast.Constant) and isinstance(n.value, str)]
+        want_consts = [n for n in ast.walk(want_tree) if isinstance(n, ast.Constant) and isinstance(n.value, str)]
+        if [c.value for c in consts] != [c.value for c in want_consts]:
+            problems["verbatim"].append(f"for {label} the string literal becomes {consts[0].value!r} where the source says {want_consts[0].value!r}")
+        # a node that sits on source line k must end up on line first + k - 1
+        defs = [n for n in ast.walk(tree) if isinstance(n, ast.FunctionDef)]
+        src_line = next(i for i, ln in enumerate(sample.split("\n"), 1) if ln.lstrip().startswith("def "))
+        if not defs or defs[0].lineno + shift != first + src_line - 1:
+            problems["line-numbers"].append(f"for {label} the `def` on source line {src_line} of a definition starting at file line {first} ends up on line {defs[0].lineno + shift if defs else '?'} instead of {first + src_line - 1}")
+    return problems
+
+
 def r9_source_parsed_verbatim(ctx):
+    from .common import run_fallback
+
+    rc = A.recompiler(ctx.repo)
+    try:
+        problems = parse_step(ctx)
+    except AnalysisError as e:
+        run_fallback(ctx, _r9_source_parsed_verbatim_shape, e, "parse step of the re-compiler")
+        return
+    ctx.touch(rc)
+    ctx.ob(f"{rc.key}:source-verbatim", rc.loc(), "the tree handed to the rewriter is the method's source as written: string literals keep their text, lines left of the definition do not matter (parse step interpreted on two sample sources)", not problems["verbatim"], "; ".join(problems["verbatim"]) + ": whatever changes inside the lines changes what the rewritten method computes")
+    ctx.ob(f"{rc.key}:line-shift", rc.loc(), "after the shift, a node on line k of the source sits on file line co_firstlineno + k - 1", not problems["line-numbers"], "; ".join(problems["line-numbers"]) + ": tracebacks of rewritten methods point at wrong lines")
+
+
+def _r9_source_parsed_verbatim_shape(ctx):
     """The text handed to the parser is the method's source as written (at most with constant lines in front): no
     transformation that rewrites the contents of lines."""
     rc = A.recompiler(ctx.repo)
@@ -255,7 +333,8 @@ def r2_positions_survive(ctx):
         # the amount: first line of the parsed text that belongs to the source = 1 + lines put in front of it
         pm = parent_map(rc.node)
         parses = [(s, x) for s in all_stmts(rc.node) if not hasattr(s, "body") for x in ast.walk(s) if isinstance(x, ast.Call) and call_name(x) in ("ast.parse", "parse")]
-        ctx.require(parses, f"{rc.key}: no ast.parse call")
+        if not parses:
+            ctx.note(f"{rc.key}: no ast.parse call in the re-compiler itself; the amount of the shift is decided by C09.R9's interpretation")
         for ps, pc in parses:
             n_front = _lines_in_front(pc.args[0] if pc.args else None)
             amount = None
